@@ -502,6 +502,52 @@ func oracleLinks(src string, dsts ...string) oracle {
 	}
 }
 
+// oracleLinksAfterRestart: every acknowledged link is there with both of its views (outgoing at
+// the source, incoming at the target), now and after a restart — a snapshot taken while the edge
+// was being added must not contain one half of it.
+func oracleLinksAfterRestart(w *world) (string, string) {
+	checkViews := func(stage string) (string, string) {
+		for _, c := range w.calls {
+			if c.op != "link" || c.ret != "ok" {
+				continue
+			}
+			p := strings.SplitN(c.arg, ">", 2)
+			out, _ := w.e.VGetLinks("i", p[0], "r")
+			in, _ := w.e.VGetIncoming("i", p[1], "r")
+			has := func(l []string, x string) bool {
+				for _, y := range l {
+					if y == x {
+						return true
+					}
+				}
+				return false
+			}
+			if !has(out, p[1]) || !has(in, p[0]) {
+				return "torn-edge", fmt.Sprintf("%s: link %s acknowledged; outgoing view of %s = %v, incoming view of %s = %v; calls: %s", stage, c.arg, p[0], out, p[1], in, describe(w.calls))
+			}
+		}
+		return "", ""
+	}
+	if k, d := checkViews("live"); k != "" {
+		return k, d
+	}
+	if err := w.e.Close(); err != nil {
+		return "close-failed", err.Error()
+	}
+	opts := engine.DefaultOptions(w.dir)
+	opts.AutoSaveInterval = 0
+	e2, err := engine.Open(opts)
+	if err != nil {
+		w.e = nil
+		return "reopen-failed", err.Error()
+	}
+	w.e = e2
+	if w.bubble {
+		synctest.Wait()
+	}
+	return checkViews("after restart")
+}
+
 func oracleRegister(key, initial string) oracle {
 	return func(w *world) (string, string) {
 		var cs []call
@@ -608,6 +654,8 @@ func all() []scen {
 		{"close-vs-writer-with-subscriber", setupOpt{vectors: []string{"a", "b"}, subscriber: true}, []explore.Thread{adder("w1", "x", "y"), closerThenOps("c")}, oracleAfterClose},
 		{"kv-set-vs-rewrite", setupOpt{}, []explore.Thread{kvSetter("s", "k", "v1", "v2"), rewriter("r")}, oracleRegister("k", "<absent>")},
 		{"kv-set-vs-snapshot", setupOpt{}, []explore.Thread{kvSetter("s", "k", "v1", "v2"), snapshotter("sn")}, oracleRegister("k", "<absent>")},
+		{"link-vs-snapshot", abc, []explore.Thread{link("l1", "a", "b"), link("l2", "a", "c"), snapshotter("s")}, oracleLinksAfterRestart},
+		{"link-vs-rewrite", abc, []explore.Thread{link("l1", "a", "b"), link("l2", "c", "a"), rewriter("r")}, oracleLinksAfterRestart},
 		{"delete-vs-link", abc, []explore.Thread{deleter("del", "b"), link("l", "a", "b")}, nil},
 	}
 }
